@@ -38,6 +38,9 @@ type hGObj struct {
 	name  string
 	size  *pt // bytes
 	fresh bool
+	// stream domain: the initial content is the content of another object at a point of the effect log
+	hasSnap          bool
+	snapObj, snapIdx int
 }
 
 type gEffect struct {
@@ -49,6 +52,11 @@ type gEffect struct {
 	what    string
 	pos     string
 	args    []sVal
+	// stream domain
+	val       *pt   // value written (put: big-endian over n bytes; write: one element)
+	srcIdx    int   // copy: the source content is taken at this point of the effect log
+	hasSrcIdx bool
+	rep       *gRep // kind "rep": k repetitions of a loop body
 }
 
 func (d *protoDom) gobj(st *sState, id int) *hGObj {
@@ -98,6 +106,9 @@ func termOf(v sVal) (*pt, bool) { return isProtoInt(v) }
 // glueStep: instructions on slice shapes. Returns true when handled.
 func (d *protoDom) glueStep(st *sState, in ssa.Instruction) bool {
 	e := d.e
+	if d.stream && d.streamStep(st, in) {
+		return true
+	}
 	pos := e.p.InstrPos(in)
 	switch x := in.(type) {
 	case *ssa.Alloc:
@@ -108,6 +119,12 @@ func (d *protoDom) glueStep(st *sState, in ssa.Instruction) bool {
 				st.vals[x] = gArr{id, int(at.Len()), esz}
 				return true
 			}
+		}
+		if _, ok := elemT.Underlying().(*types.Struct); ok {
+			// a local object with fields (the cipher a constructor fills): its array fields are objects of their own
+			d.gLocals++
+			st.vals[x] = gRecv{fmt.Sprintf("local %s#%d", x.Comment, d.gLocals)}
+			return true
 		}
 	case *ssa.MakeSlice:
 		st0, ok := x.Type().Underlying().(*types.Slice)
@@ -128,6 +145,12 @@ func (d *protoDom) glueStep(st *sState, in ssa.Instruction) bool {
 			base = v
 		case gArr:
 			base = gSlice{v.obj, pC(0), pC(int64(v.n)), pC(int64(v.n)), v.esz}
+		case gField:
+			fa, ok := d.fieldArray(st, v, x.X.Type())
+			if !ok {
+				return false
+			}
+			base = gSlice{fa.obj, pC(0), pC(int64(fa.n)), pC(int64(fa.n)), fa.esz}
 		default:
 			return false
 		}
@@ -157,6 +180,11 @@ func (d *protoDom) glueStep(st *sState, in ssa.Instruction) bool {
 		if !ok {
 			return false
 		}
+		if f, ok := a.(gField); ok {
+			if fa, ok := d.fieldArray(st, f, x.X.Type()); ok {
+				a = fa
+			}
+		}
 		switch v := a.(type) {
 		case gSlice:
 			d.gOblige(st, "INDEX-BOUNDS", idx, token.GEQ, pC(0), "index", pos)
@@ -170,6 +198,13 @@ func (d *protoDom) glueStep(st *sState, in ssa.Instruction) bool {
 			return true
 		}
 	case *ssa.FieldAddr:
+		if f, ok := e.get(st, x.X).(gField); ok {
+			// a field of an embedded struct
+			if stt, ok := x.X.Type().Underlying().(*types.Pointer).Elem().Underlying().(*types.Struct); ok {
+				st.vals[x] = gField{f.recv + "." + f.field, stt.Field(x.Field).Name()}
+				return true
+			}
+		}
 		if rv, ok := e.get(st, x.X).(gRecv); ok {
 			stt := x.X.Type().Underlying().(*types.Pointer).Elem().Underlying().(*types.Struct)
 			st.vals[x] = gField{rv.name, stt.Field(x.Field).Name()}
@@ -197,6 +232,11 @@ func (d *protoDom) glueStep(st *sState, in ssa.Instruction) bool {
 		switch v := e.get(st, x.X).(type) {
 		case gPtr, gSlice, gArr:
 			st.vals[x] = v
+			return true
+		}
+	case *ssa.MakeInterface:
+		if types.Identical(x.Type(), types.Universe.Lookup("error").Type()) {
+			st.vals[x] = pErr{true} // a concrete value boxed as an error is a non-nil error
 			return true
 		}
 	case *ssa.ChangeType:
@@ -229,7 +269,7 @@ func (d *protoDom) fieldValue(st *sState, f gField, t types.Type) sVal {
 		v = gSlice{id, pC(0), ln, ln, esz}
 	case *types.Array:
 		esz := elemSize(u.Elem())
-		id := d.newGObj(st, key, pC(u.Len()*int64(esz)), false)
+		id := d.newGObj(st, key, pC(u.Len()*int64(esz)), strings.HasPrefix(f.recv, "local ")) // a local struct starts zeroed
 		v = gArr{id, int(u.Len()), esz}
 	case *types.Interface:
 		v = gCipher{}
@@ -243,6 +283,19 @@ func (d *protoDom) fieldValue(st *sState, f gField, t types.Type) sVal {
 	}
 	st.gfields[key] = v
 	return v
+}
+
+// fieldArray: the array a pointer-to-array field address denotes
+func (d *protoDom) fieldArray(st *sState, f gField, ptrT types.Type) (gArr, bool) {
+	pt0, ok := ptrT.Underlying().(*types.Pointer)
+	if !ok {
+		return gArr{}, false
+	}
+	if _, ok := pt0.Elem().Underlying().(*types.Array); !ok {
+		return gArr{}, false
+	}
+	a, ok := d.fieldValue(st, f, pt0.Elem()).(gArr)
+	return a, ok
 }
 
 // bytesBehind: bytes available from a pointer-like argument, its object and offset
@@ -369,16 +422,19 @@ func (d *protoDom) glueCall(st *sState, call *ssa.Call, name string, args []sVal
 		}
 		return true
 	}
+	if d.stream && d.streamCall(st, call, name, args) {
+		return true
+	}
 	switch name {
 	case "crypto/subtle.ConstantTimeCompare":
 		st.geff = append(st.geff, gEffect{kind: "call", what: "ConstantTimeCompare", pos: pos, args: args})
 		set(pInt{&pt{op: "asmret", s: fmt.Sprintf("ConstantTimeCompare#%d", len(st.geff))}})
 		return true
-	case "(crypto/cipher.Block).Encrypt", "(crypto/cipher.Block).Decrypt":
+	case "(cipher.Block).Encrypt", "(cipher.Block).Decrypt":
 		// one block: dst and src need 16 bytes
 		for i := 1; i <= 2 && i < len(args); i++ {
 			if avail, obj, off, ok := d.bytesBehind(st, args[i]); ok {
-				d.gOblige(st, "CALLSITE", avail, token.GEQ, pC(16), "cipher.Block."+strings.TrimPrefix(name, "(crypto/cipher.Block).")+" works on one 16-byte block", pos)
+				d.gOblige(st, "CALLSITE", avail, token.GEQ, pC(16), "cipher.Block."+strings.TrimPrefix(name, "(cipher.Block).")+" works on one 16-byte block", pos)
 				if i == 1 {
 					st.geff = append(st.geff, gEffect{kind: "write", obj: obj, off: off, n: pC(16), pos: pos})
 				}
@@ -449,6 +505,13 @@ func (d *protoDom) glueCall(st *sState, call *ssa.Call, name string, args []sVal
 			st.geff = append(st.geff, gEffect{kind: "call", what: "calculateFirstCounter", pos: pos, args: args})
 			set(sNil{})
 			return true
+		case "expandKey": // (mk []byte, enc, dec *[32]uint32): reads the first 16 bytes of mk
+			if mk, ok := args[0].(gSlice); ok {
+				d.gOblige(st, "CALLSITE", mk.ln, token.GEQ, pC(16), "expandKey reads a 16-byte key", pos)
+				st.geff = append(st.geff, gEffect{kind: "call", what: "expandKey", pos: pos, args: args})
+				set(sNil{})
+				return true
+			}
 		case "cryptoBlock", "cryptoBlockX2": // portable kernels (x, y []byte, rk): bounds are their own business (slices re-checked by Go)
 			st.geff = append(st.geff, gEffect{kind: "call", what: short, pos: pos, args: args})
 			if s, ok := args[1].(gSlice); ok {
@@ -469,17 +532,19 @@ func mustTerm(v sVal) *pt {
 }
 
 // glueBuiltin: len, cap, copy on slice shapes
+func gShape(v sVal) (gSlice, bool) {
+	switch x := v.(type) {
+	case gSlice:
+		return x, true
+	case gArr:
+		return gSlice{x.obj, pC(0), pC(int64(x.n)), pC(int64(x.n)), x.esz}, true
+	}
+	return gSlice{}, false
+}
+
 func (d *protoDom) glueBuiltin(st *sState, name string, call *ssa.Call, args []sVal) (sVal, bool) {
 	pos := d.e.p.InstrPos(call)
-	shape := func(v sVal) (gSlice, bool) {
-		switch x := v.(type) {
-		case gSlice:
-			return x, true
-		case gArr:
-			return gSlice{x.obj, pC(0), pC(int64(x.n)), pC(int64(x.n)), x.esz}, true
-		}
-		return gSlice{}, false
-	}
+	shape := gShape
 	switch name {
 	case "len":
 		if s, ok := shape(args[0]); ok {
@@ -494,6 +559,25 @@ func (d *protoDom) glueBuiltin(st *sState, name string, call *ssa.Call, args []s
 				return sInt{new(big.Int).Set(s.cp.n)}, true
 			}
 			return pInt{s.cp}, true
+		}
+	case "append":
+		if d.stream && len(args) == 2 {
+			a, ok1 := shape(args[0])
+			b, ok2 := shape(args[1])
+			if _, isNil := args[0].(sNil); isNil {
+				a, ok1 = gSlice{0, pC(0), pC(0), pC(0), b.esz}, true
+			}
+			if ok1 && ok2 && a.esz == b.esz {
+				// the result as a new object holding a followed by b (writing into spare capacity gives the same bytes)
+				n := pAdd(a.ln, b.ln)
+				esz := pC(int64(a.esz))
+				id := d.newGObj(st, "append@"+pos, pMul(esz, n), true)
+				if a.obj != 0 {
+					st.geff = append(st.geff, gEffect{kind: "copy", obj: id, off: pC(0), n: pMul(esz, a.ln), srcObj: a.obj, srcOff: a.off, pos: pos})
+				}
+				st.geff = append(st.geff, gEffect{kind: "copy", obj: id, off: pMul(esz, a.ln), n: pMul(esz, b.ln), srcObj: b.obj, srcOff: b.off, pos: pos})
+				return gSlice{id, pC(0), n, n, a.esz}, true
+			}
 		}
 	case "copy":
 		dst, ok1 := shape(args[0])
